@@ -51,10 +51,35 @@ def ccase(I, c):
                                        cpair(cinput(I, st), clist(st.get("out") or [], lambda m: cmsg(I, m), "smsg"))),
                       "(nat * (input * list smsg))%type")
         return "(MMulti %s %s %s %s)" % (cnat(c["n"]), cbool(bool(c.get("fail"))), cnat(nsessions(c)), steps)
+    groups = join_groups(c.get("steps") or [])   # (the driver joins steps in single-session cases only)
+    if any(len(g) > 1 for g in groups):
+        # runs of child messages emitted with no sentinel in between: groups of inputs with one joint observation
+        gs = clist(groups,
+                   lambda g: cpair(clist(g, lambda st: cinput(I, st), "input"),
+                                   clist([m for st in g for m in st.get("out") or []], lambda m: cmsg(I, m), "smsg")),
+                   "(list input * list smsg)%type")
+        return "(MJoint %s %s %s)" % (cnat(c["n"]), cbool(bool(c.get("fail"))), gs)
     steps = clist(c.get("steps") or [],
                   lambda st: cpair(cinput(I, st), clist(st.get("out") or [], lambda m: cmsg(I, m), "smsg")),
                   "(input * list smsg)%type")
     return "(MCase %s %s %s)" % (cnat(c["n"]), cbool(bool(c.get("fail"))), steps)
+
+
+def join_groups(steps):
+    """the rule of merge_driver.go: a child step with `join` (and without `early`) runs together with the next
+    step when that is a child step of the same child and session without `early`"""
+    groups, i = [], 0
+    while i < len(steps):
+        g = [steps[i]]
+        while (steps[i]["k"] == "child" and steps[i].get("join") and not steps[i].get("early") and i + 1 < len(steps)
+               and steps[i + 1]["k"] == "child" and not steps[i + 1].get("early")
+               and steps[i + 1].get("i", 0) == steps[i].get("i", 0) and steps[i + 1].get("s", 0) == steps[i].get("s", 0)
+               and steps[i + 1].get("m") is not None):
+            i += 1
+            g.append(steps[i])
+        groups.append(g)
+        i += 1
+    return groups
 
 
 def strip(c):
